@@ -439,69 +439,21 @@ template<class A,class B> static Named named(const char* n,size_t ws,size_t wa){
 #define NM_PQ(NAME,T,Q)    named<glm::NAME,glm::qua<T,glm::Q> >(#NAME,4*sizeof(T),alignof(T))
 #define NM_A(NAME,L,T,Q,WS,WA) named<glm::NAME,glm::vec<L,T,glm::Q> >(#NAME,WS,WA)
 #define NM_AM(NAME,C,R,T,Q) named<glm::NAME,glm::mat<C,R,T,glm::Q> >(#NAME,C*sizeof(glm::vec<R,T,glm::Q>),0)
+// every documented vec/mat/qua typedef name (864: core/ext, gtc/type_precision.hpp, gtc/type_aligned.hpp), generated from the naming convention
+// names with the default qualifier: packed, or aligned_highp when GLM_FORCE_DEFAULT_ALIGNED_GENTYPES is effective
+#if C16_ALIGNED && defined(GLM_FORCE_DEFAULT_ALIGNED_GENTYPES)
+template<int L,class T> struct DocA { enum { S= (std::is_same<T,float>::value&&L==2)? 8: (std::is_same<T,float>::value&&L>=3)? 16: 0 }; };
+#define ND_V(NAME,L,T) t.push_back(named<glm::NAME,glm::vec<L,T,glm::aligned_highp> >(#NAME,DocA<L,T>::S,DocA<L,T>::S));
+#define ND_M(NAME,C,R,T) t.push_back(NM_AM(NAME,C,R,T,aligned_highp));
+#define ND_Q(NAME,T) t.push_back((named<glm::NAME,glm::qua<T,glm::aligned_highp> >(#NAME,0,0)));
+#else
+#define ND_V(NAME,L,T) t.push_back(NM_P(NAME,L,T,packed_highp));
+#define ND_M(NAME,C,R,T) t.push_back(NM_PM(NAME,C,R,T,packed_highp));
+#define ND_Q(NAME,T) t.push_back(NM_PQ(NAME,T,packed_highp));
+#endif
 static std::vector<Named> named_table(){
 	std::vector<Named> t;
-	// glm/gtc/type_precision.hpp: sized element types with the default qualifier
-#if !(C16_ALIGNED && defined(GLM_FORCE_DEFAULT_ALIGNED_GENTYPES))
-	t.push_back(NM_P(vec2,2,float,packed_highp)); t.push_back(NM_P(vec3,3,float,packed_highp)); t.push_back(NM_P(vec4,4,float,packed_highp));
-	t.push_back(NM_P(dvec2,2,double,packed_highp)); t.push_back(NM_P(dvec3,3,double,packed_highp)); t.push_back(NM_P(dvec4,4,double,packed_highp));
-	t.push_back(NM_P(ivec2,2,int,packed_highp)); t.push_back(NM_P(ivec3,3,int,packed_highp)); t.push_back(NM_P(ivec4,4,int,packed_highp));
-	t.push_back(NM_P(uvec2,2,unsigned,packed_highp)); t.push_back(NM_P(uvec3,3,unsigned,packed_highp)); t.push_back(NM_P(uvec4,4,unsigned,packed_highp));
-	t.push_back(NM_P(bvec2,2,bool,packed_highp)); t.push_back(NM_P(bvec3,3,bool,packed_highp)); t.push_back(NM_P(bvec4,4,bool,packed_highp));
-	t.push_back(NM_P(vec1,1,float,packed_highp)); t.push_back(NM_P(dvec1,1,double,packed_highp)); t.push_back(NM_P(ivec1,1,int,packed_highp)); t.push_back(NM_P(uvec1,1,unsigned,packed_highp)); t.push_back(NM_P(bvec1,1,bool,packed_highp));
-	t.push_back(NM_P(i8vec1,1,glm::int8,packed_highp)); t.push_back(NM_P(i8vec2,2,glm::int8,packed_highp)); t.push_back(NM_P(i8vec3,3,glm::int8,packed_highp)); t.push_back(NM_P(i8vec4,4,glm::int8,packed_highp));
-	t.push_back(NM_P(u8vec1,1,glm::uint8,packed_highp)); t.push_back(NM_P(u8vec2,2,glm::uint8,packed_highp)); t.push_back(NM_P(u8vec3,3,glm::uint8,packed_highp)); t.push_back(NM_P(u8vec4,4,glm::uint8,packed_highp));
-	t.push_back(NM_P(i16vec1,1,glm::int16,packed_highp)); t.push_back(NM_P(i16vec2,2,glm::int16,packed_highp)); t.push_back(NM_P(i16vec3,3,glm::int16,packed_highp)); t.push_back(NM_P(i16vec4,4,glm::int16,packed_highp));
-	t.push_back(NM_P(u16vec1,1,glm::uint16,packed_highp)); t.push_back(NM_P(u16vec2,2,glm::uint16,packed_highp)); t.push_back(NM_P(u16vec3,3,glm::uint16,packed_highp)); t.push_back(NM_P(u16vec4,4,glm::uint16,packed_highp));
-	t.push_back(NM_P(i32vec1,1,glm::int32,packed_highp)); t.push_back(NM_P(i32vec2,2,glm::int32,packed_highp)); t.push_back(NM_P(i32vec3,3,glm::int32,packed_highp)); t.push_back(NM_P(i32vec4,4,glm::int32,packed_highp));
-	t.push_back(NM_P(u32vec1,1,glm::uint32,packed_highp)); t.push_back(NM_P(u32vec2,2,glm::uint32,packed_highp)); t.push_back(NM_P(u32vec3,3,glm::uint32,packed_highp)); t.push_back(NM_P(u32vec4,4,glm::uint32,packed_highp));
-	t.push_back(NM_P(i64vec1,1,glm::int64,packed_highp)); t.push_back(NM_P(i64vec2,2,glm::int64,packed_highp)); t.push_back(NM_P(i64vec3,3,glm::int64,packed_highp)); t.push_back(NM_P(i64vec4,4,glm::int64,packed_highp));
-	t.push_back(NM_P(u64vec1,1,glm::uint64,packed_highp)); t.push_back(NM_P(u64vec2,2,glm::uint64,packed_highp)); t.push_back(NM_P(u64vec3,3,glm::uint64,packed_highp)); t.push_back(NM_P(u64vec4,4,glm::uint64,packed_highp));
-	t.push_back(NM_P(f32vec1,1,float,packed_highp)); t.push_back(NM_P(f32vec2,2,float,packed_highp)); t.push_back(NM_P(f32vec3,3,float,packed_highp)); t.push_back(NM_P(f32vec4,4,float,packed_highp));
-	t.push_back(NM_P(f64vec1,1,double,packed_highp)); t.push_back(NM_P(f64vec2,2,double,packed_highp)); t.push_back(NM_P(f64vec3,3,double,packed_highp)); t.push_back(NM_P(f64vec4,4,double,packed_highp));
-	t.push_back(NM_PM(mat2,2,2,float,packed_highp)); t.push_back(NM_PM(mat3,3,3,float,packed_highp)); t.push_back(NM_PM(mat4,4,4,float,packed_highp));
-	t.push_back(NM_PM(mat2x3,2,3,float,packed_highp)); t.push_back(NM_PM(mat2x4,2,4,float,packed_highp)); t.push_back(NM_PM(mat3x2,3,2,float,packed_highp));
-	t.push_back(NM_PM(mat3x4,3,4,float,packed_highp)); t.push_back(NM_PM(mat4x2,4,2,float,packed_highp)); t.push_back(NM_PM(mat4x3,4,3,float,packed_highp));
-	t.push_back(NM_PM(dmat2,2,2,double,packed_highp)); t.push_back(NM_PM(dmat3,3,3,double,packed_highp)); t.push_back(NM_PM(dmat4,4,4,double,packed_highp));
-	t.push_back(NM_PM(dmat2x3,2,3,double,packed_highp)); t.push_back(NM_PM(dmat3x4,3,4,double,packed_highp)); t.push_back(NM_PM(dmat4x3,4,3,double,packed_highp));
-	t.push_back(NM_PM(f32mat2,2,2,float,packed_highp)); t.push_back(NM_PM(f32mat3x4,3,4,float,packed_highp)); t.push_back(NM_PM(f32mat4,4,4,float,packed_highp));
-	t.push_back(NM_PM(f64mat2x3,2,3,double,packed_highp)); t.push_back(NM_PM(f64mat3,3,3,double,packed_highp)); t.push_back(NM_PM(f64mat4,4,4,double,packed_highp));
-	t.push_back(NM_PQ(quat,float,packed_highp)); t.push_back(NM_PQ(dquat,double,packed_highp)); t.push_back(NM_PQ(f32quat,float,packed_highp)); t.push_back(NM_PQ(f64quat,double,packed_highp));
-#endif
-	// precision-qualified names are packed in every configuration
-	t.push_back(NM_P(highp_vec3,3,float,packed_highp)); t.push_back(NM_P(mediump_vec3,3,float,packed_mediump)); t.push_back(NM_P(lowp_vec3,3,float,packed_lowp));
-	t.push_back(NM_P(highp_vec4,4,float,packed_highp)); t.push_back(NM_P(mediump_vec4,4,float,packed_mediump)); t.push_back(NM_P(lowp_vec4,4,float,packed_lowp));
-	t.push_back(NM_P(highp_dvec2,2,double,packed_highp)); t.push_back(NM_P(mediump_dvec3,3,double,packed_mediump)); t.push_back(NM_P(lowp_dvec4,4,double,packed_lowp));
-	t.push_back(NM_P(highp_ivec3,3,int,packed_highp)); t.push_back(NM_P(mediump_uvec2,2,unsigned,packed_mediump)); t.push_back(NM_P(lowp_bvec4,4,bool,packed_lowp));
-	t.push_back(NM_P(highp_i8vec3,3,glm::int8,packed_highp)); t.push_back(NM_P(mediump_u16vec3,3,glm::uint16,packed_mediump)); t.push_back(NM_P(lowp_i64vec3,3,glm::int64,packed_lowp));
-	t.push_back(NM_PM(highp_mat3,3,3,float,packed_highp)); t.push_back(NM_PM(mediump_mat4x3,4,3,float,packed_mediump)); t.push_back(NM_PM(lowp_dmat2x3,2,3,double,packed_lowp));
-	t.push_back(NM_PQ(highp_quat,float,packed_highp)); t.push_back(NM_PQ(mediump_dquat,double,packed_mediump)); t.push_back(NM_PQ(lowp_quat,float,packed_lowp));
-#if C16_ALIGNED
-	// glm/gtc/type_aligned.hpp
-	t.push_back(NM_P(packed_vec1,1,float,packed_highp)); t.push_back(NM_P(packed_vec2,2,float,packed_highp)); t.push_back(NM_P(packed_vec3,3,float,packed_highp)); t.push_back(NM_P(packed_vec4,4,float,packed_highp));
-	t.push_back(NM_P(packed_dvec3,3,double,packed_highp)); t.push_back(NM_P(packed_ivec3,3,int,packed_highp)); t.push_back(NM_P(packed_uvec4,4,unsigned,packed_highp)); t.push_back(NM_P(packed_bvec3,3,bool,packed_highp));
-	t.push_back(NM_P(packed_lowp_vec3,3,float,packed_lowp)); t.push_back(NM_P(packed_mediump_dvec4,4,double,packed_mediump));
-	t.push_back(NM_PM(packed_mat3,3,3,float,packed_highp)); t.push_back(NM_PM(packed_mat4x3,4,3,float,packed_highp)); t.push_back(NM_PM(packed_dmat3x2,3,2,double,packed_highp));
-	t.push_back(NM_A(aligned_vec1,1,float,aligned_highp,0,0));
-	t.push_back(NM_A(aligned_vec2,2,float,aligned_highp,8,8)); t.push_back(NM_A(aligned_vec3,3,float,aligned_highp,16,16)); t.push_back(NM_A(aligned_vec4,4,float,aligned_highp,16,16));
-	t.push_back(NM_A(aligned_highp_vec2,2,float,aligned_highp,8,8)); t.push_back(NM_A(aligned_highp_vec3,3,float,aligned_highp,16,16)); t.push_back(NM_A(aligned_highp_vec4,4,float,aligned_highp,16,16));
-	t.push_back(NM_A(aligned_mediump_vec2,2,float,aligned_mediump,8,8)); t.push_back(NM_A(aligned_mediump_vec3,3,float,aligned_mediump,16,16)); t.push_back(NM_A(aligned_mediump_vec4,4,float,aligned_mediump,16,16));
-	t.push_back(NM_A(aligned_lowp_vec2,2,float,aligned_lowp,8,8)); t.push_back(NM_A(aligned_lowp_vec3,3,float,aligned_lowp,16,16)); t.push_back(NM_A(aligned_lowp_vec4,4,float,aligned_lowp,16,16));
-	t.push_back(NM_A(aligned_dvec2,2,double,aligned_highp,0,0)); t.push_back(NM_A(aligned_dvec3,3,double,aligned_highp,0,0)); t.push_back(NM_A(aligned_dvec4,4,double,aligned_highp,0,0));
-	t.push_back(NM_A(aligned_ivec2,2,int,aligned_highp,0,0)); t.push_back(NM_A(aligned_ivec3,3,int,aligned_highp,0,0)); t.push_back(NM_A(aligned_ivec4,4,int,aligned_highp,0,0));
-	t.push_back(NM_A(aligned_uvec2,2,unsigned,aligned_highp,0,0)); t.push_back(NM_A(aligned_uvec3,3,unsigned,aligned_highp,0,0)); t.push_back(NM_A(aligned_uvec4,4,unsigned,aligned_highp,0,0));
-	t.push_back(NM_A(aligned_bvec2,2,bool,aligned_highp,0,0)); t.push_back(NM_A(aligned_bvec3,3,bool,aligned_highp,0,0)); t.push_back(NM_A(aligned_bvec4,4,bool,aligned_highp,0,0));
-	t.push_back(NM_AM(aligned_mat2,2,2,float,aligned_highp)); t.push_back(NM_AM(aligned_mat3,3,3,float,aligned_highp)); t.push_back(NM_AM(aligned_mat4,4,4,float,aligned_highp));
-	t.push_back(NM_AM(aligned_mat2x3,2,3,float,aligned_highp)); t.push_back(NM_AM(aligned_mat2x4,2,4,float,aligned_highp)); t.push_back(NM_AM(aligned_mat3x2,3,2,float,aligned_highp));
-	t.push_back(NM_AM(aligned_mat3x4,3,4,float,aligned_highp)); t.push_back(NM_AM(aligned_mat4x2,4,2,float,aligned_highp)); t.push_back(NM_AM(aligned_mat4x3,4,3,float,aligned_highp));
-	t.push_back(NM_AM(aligned_dmat2,2,2,double,aligned_highp)); t.push_back(NM_AM(aligned_dmat3,3,3,double,aligned_highp)); t.push_back(NM_AM(aligned_dmat4,4,4,double,aligned_highp));
-	t.push_back(NM_AM(aligned_lowp_mat3,3,3,float,aligned_lowp)); t.push_back(NM_AM(aligned_mediump_dmat4x3,4,3,double,aligned_mediump));
-#	if defined(GLM_FORCE_DEFAULT_ALIGNED_GENTYPES)
-	t.push_back(NM_A(vec2,2,float,aligned_highp,8,8)); t.push_back(NM_A(vec3,3,float,aligned_highp,16,16)); t.push_back(NM_A(vec4,4,float,aligned_highp,16,16));
-	t.push_back(NM_A(dvec3,3,double,aligned_highp,0,0)); t.push_back(NM_A(ivec3,3,int,aligned_highp,0,0)); t.push_back(NM_A(u8vec3,3,glm::uint8,aligned_highp,0,0));
-	t.push_back(NM_AM(mat3,3,3,float,aligned_highp)); t.push_back(NM_AM(mat4,4,4,float,aligned_highp)); t.push_back(NM_AM(dmat4x3,4,3,double,aligned_highp));
-#	endif
-#endif
+#include "C16_names.inc"
 	return t;
 }
 static const std::vector<Named>& NT(){ static const std::vector<Named> t=named_table(); return t; }
